@@ -277,7 +277,8 @@ Lemma liquidate_reply_ledger_live w i o swap liq :
   X + ts_open_notional swap + o + p_margin p + o * e_liqfee c <= fund ->
   (* the vault holds the position's remaining equity (otherwise: known finding stale_vault_balance) *)
   liq_equity w v p (ts_open_notional swap) o <= tb ->
-  exists w' msgs t', liquidate_reply w i o = Ok (w', msgs) /\ lrun (w_tok w) msgs = Ok t'.
+  exists w' msgs t', liquidate_reply w i o = Ok (w', msgs) /\ lrun (w_tok w) msgs = Ok t' /\
+    (exists e', w' = set_eng w e') /\ (length msgs <= 4)%nat.
 Proof.
   intros Htmp Hliq c st v t p lat X tb fund Hp Hc HD Ho Hon Hlf Hbd Htb Hlb B1 B2 B3 B4 R1 R2 Hif Hl1 Hl2 Hfund Hvault.
   unfold liquidate_reply, need_tmp, need_liq. rewrite Htmp, Hliq. cbn [bind]. cbv zeta.
@@ -329,7 +330,104 @@ Proof.
   assert (NE3 : A_ENGINE <> liq) by congruence.
   repeat live_step.
   all: do 3 eexists; (split; [reflexivity|]).
+  all: (split; [|split; [eexists; reflexivity|cbn [length app]; lia]]).
   all: unfold execute_insurance_fund_withdrawal, execute_transfer; fold c; rewrite ?Hif.
   all: cbn [lrun app sm_msg sm_reply bind]; rewrite ?Z.eqb_refl; cbn [bind].
   all: repeat tok_step; try reflexivity.
+Qed.
+
+(* ---------- END TO END: a full liquidation transaction succeeds ---------- *)
+Lemma dispatch_nil k f w n s : dispatch (S k) f w n s [] = Ok (w, n).
+Proof. reflexivity. Qed.
+
+(* the transaction is the execute arm followed by the dispatch of what it returns *)
+Lemma exec_liquidate_unfold f w s v t lim w1 subs :
+  e_liquidate w s v t lim = Ok (w1, subs) ->
+  exec_op f w (OEngine s (ELiquidate v t lim) 0) = do y <- dispatch FUEL f w1 0 A_ENGINE subs; Ok (fst y).
+Proof. intros H. cbn [exec_op]. unfold attach_funds. cbn [Z.eqb bind engine_execute]. rewrite H. reflexivity. Qed.
+
+(* the replying swap of a liquidation, its reply, the reply's messages *)
+Lemma dispatch_liquidation_swap k f w1 v d size lim vm vm' q b w3 msgs w4 n' :
+  f < 0 -> get_vamm w1 v = Ok vm ->
+  swap_output vm (w_env w1) A_ENGINE d size lim = Ok (vm', (q, b)) ->
+  liquidate_reply (set_vamm w1 v vm') b q = Ok (w3, msgs) ->
+  dispatch k f w3 (0 + 1) A_ENGINE msgs = Ok (w4, n') ->
+  dispatch k f w4 n' A_ENGINE [] = Ok (w4, n') ->
+  dispatch (S k) f w1 0 A_ENGINE [mkSub (MSwapOutput v d size lim) LIQUIDATION_ID RAlways] = Ok (w4, n').
+Proof.
+  intros Hf Hv Hs Hr Hd Hn. cbn [dispatch]. destruct (Z.eqb_spec 0 f) as [E|_]; [lia|].
+  cbn [sm_msg sm_reply sm_id exec_simple]. rewrite Hv. cbn [bind]. rewrite Hs. cbn [bind fst snd wants_ok].
+  assert (Hcr : contract_reply (set_vamm w1 v vm') A_ENGINE LIQUIDATION_ID (Ok (EvSwap b q)) = liquidate_reply (set_vamm w1 v vm') b q) by reflexivity.
+  rewrite Hcr, Hr. cbn [bind fst snd]. rewrite Hd. cbn [bind fst snd]. exact Hn.
+Qed.
+
+Theorem liquidate_full_tx_live f w s v t lim mr p vm vm' q b :
+  f < 0 ->
+  let wl := with_liquidator w s in
+  let c := ec (w_eng w) in let st := es (w_eng w) in
+  (* the position exists and its liquidation ratio is at or below maintenance; the vAMM is open and registered *)
+  find_position (w_eng w) v t = Some p -> sval (p_size p) <> 0 ->
+  liq_ratio wl v t = Ok mr -> sgtb mr (spos (e_maint c)) = false ->
+  require_vamm wl v = Ok tt ->
+  (* the full-liquidation branch *)
+  (e_liqfee c <? sval mr) && negb (e_plr c =? 0) = false ->
+  (* the vAMM fills the closing trade (and is inside its band) *)
+  get_vamm w v = Ok vm ->
+  swap_output vm (w_env w) A_ENGINE (side_to_direction (direction_to_side (p_dir p))) (sval (p_size p)) lim = Ok (vm', (q, b)) ->
+  (* ranges *)
+  let lat := cumulative_premium_fraction (w_eng w) v in
+  let X := Z.abs ((toZ lat - toZ (p_lupf p)) * toZ (p_size p)) in
+  let tb := bal (w_tok w) A_ENGINE in let fund := bal (w_tok w) A_IFUND in
+  pos_wf p -> cpf_wf (w_eng w) v -> 0 < e_dec c -> 0 <= q -> 0 <= e_liqfee c ->
+  0 <= e_bad_debt st -> 0 <= tb -> 0 <= bal (w_tok w) s ->
+  sval lat < MAXU -> sval (p_lupf p) < MAXU -> sval (p_size p) < MAXU -> e_dec c < MAXU ->
+  Z.abs (toZ lat - toZ (p_lupf p)) < MAXU ->
+  X + p_notional p + q + p_margin p + q * e_liqfee c + e_bad_debt st + tb + fund + bal (w_tok w) s < MAXU ->
+  (* the registered insurance fund pays the engine; the liquidator is neither the vault nor the fund *)
+  e_ifund c = A_IFUND -> if_engine (w_if w) = A_ENGINE -> s <> A_ENGINE -> s <> A_IFUND ->
+  (* the fund covers any shortfall; the vault holds the position's remaining equity *)
+  X + p_notional p + q + p_margin p + q * e_liqfee c <= fund ->
+  liq_equity w v p (p_notional p) q <= tb ->
+  exists w', exec_op f w (OEngine s (ELiquidate v t lim) 0) = Ok w'.
+Proof.
+  intros Hf wl c st Hfind Hsz Hr Hm Hv Hfull Hvm Hswap lat X tb fund Hp Hc HD Hq Hlf Hbd Htb Hlb B1 B2 B3 B4 R1 R2 Hif Hie Hs1 Hs2 Hfund Hvault.
+  assert (Hrp : read_position (w_eng w) v t = p) by (unfold read_position; rewrite Hfind; reflexivity).
+  pose proof (liquidate_execute_live w s v t lim mr Hr Hv Hm ltac:(rewrite Hrp; exact Hsz) Hfull) as Hex.
+  rewrite Hrp in Hex. unfold internal_close_position in Hex. cbn [fst snd] in Hex. unfold swap_output_msg in Hex.
+  remember (mkTmp v t (direction_to_side (p_dir p)) (sval (p_size p)) 0 (p_notional p) 0 szero szero false) as tm eqn:Htm.
+  remember (set_eng (with_liquidator w s) (eng_set_tmp (w_eng (with_liquidator w s)) (Some tm))) as w1 eqn:Hw1.
+  rewrite (exec_liquidate_unfold f w s v t lim _ _ Hex).
+  assert (E1 : get_vamm w1 v = Ok vm) by (subst w1; exact Hvm).
+  assert (E2 : w_env w1 = w_env w) by (subst w1; reflexivity).
+  assert (E3 : e_tmp (w_eng (set_vamm w1 v vm')) = Some tm) by (subst w1; reflexivity).
+  assert (E4 : e_liq (w_eng (set_vamm w1 v vm')) = Some s) by (subst w1; reflexivity).
+  assert (E5 : find_position (w_eng (set_vamm w1 v vm')) v t = Some p) by (subst w1; exact Hfind).
+  assert (E6 : ec (w_eng (set_vamm w1 v vm')) = ec (w_eng w)) by (subst w1; reflexivity).
+  assert (E7 : es (w_eng (set_vamm w1 v vm')) = es (w_eng w)) by (subst w1; reflexivity).
+  assert (E8 : w_tok (set_vamm w1 v vm') = w_tok w) by (subst w1; reflexivity).
+  assert (E9 : e_vmap (w_eng (set_vamm w1 v vm')) = e_vmap (w_eng w)) by (subst w1; reflexivity).
+  assert (E10 : w_if (set_vamm w1 v vm') = w_if w) by (subst w1; reflexivity).
+  assert (T1 : ts_vamm tm = v) by (subst tm; reflexivity).
+  assert (T2 : ts_trader tm = t) by (subst tm; reflexivity).
+  assert (T3 : ts_open_notional tm = p_notional p) by (subst tm; reflexivity).
+  clear Hw1 Hex.
+  remember (set_vamm w1 v vm') as w2 eqn:Hw2.
+  assert (Hgp : get_position (w_eng w2) (w_env w2) (ts_vamm tm) (ts_trader tm) (ts_side tm) = p).
+  { unfold get_position. rewrite T1, T2, E5. reflexivity. }
+  assert (Hlat : cumulative_premium_fraction (w_eng w2) v = cumulative_premium_fraction (w_eng w) v).
+  { unfold cumulative_premium_fraction, read_vmap. rewrite E9. reflexivity. }
+  assert (Hfo : funding_owed w2 v p = funding_owed w v p) by (unfold funding_owed; rewrite Hlat, E6; reflexivity).
+  assert (Heq : liq_equity w2 v p (p_notional p) q = liq_equity w v p (p_notional p) q) by (unfold liq_equity; rewrite Hfo; reflexivity).
+  destruct Hp as (Hp1 & Hp2 & Hp3 & Hp4).
+  destruct (liquidate_reply_ledger_live w2 b q tm s E3 E4) as (w3 & msgs & t' & Hlr & Hrun & (e' & ->) & Hlen);
+    rewrite ?Hgp, ?T1, ?T3, ?Hlat, ?E6, ?E7, ?E8, ?Heq; try assumption; try (repeat split; assumption);
+    try (unfold cpf_wf; rewrite Hlat; exact Hc).
+  rewrite E8 in Hrun.
+  assert (Hie2 : if_engine (w_if (set_eng w2 e')) = A_ENGINE) by (cbn [w_if set_eng]; rewrite E10; exact Hie).
+  assert (Hrun2 : lrun (w_tok (set_eng w2 e')) msgs = Ok t') by (cbn [w_tok set_eng]; rewrite E8; exact Hrun).
+  destruct (dispatch_lrun msgs 63%nat f (set_eng w2 e') (0 + 1) t' Hf ltac:(lia) Hie2 Hrun2 ltac:(lia)) as (n' & Hd & _).
+  rewrite <- E2 in Hswap.
+  assert (Hfu : FUEL = S 63) by reflexivity. rewrite Hfu. subst w2.
+  rewrite (dispatch_liquidation_swap 63 f w1 v _ _ lim vm vm' q b _ msgs _ n' Hf E1 Hswap Hlr Hd (dispatch_nil 62 f _ n' A_ENGINE)).
+  cbn [bind fst]. eexists. reflexivity.
 Qed.
